@@ -121,7 +121,18 @@ def r1(ctx: RuleCtx) -> None:
     ctx.floor('scheduling call sites', len(s.sites), 1)
     if not s.sites:
         ctx.violation(mod, fq, 'no call of ' + '/'.join(s.closures), 'the runner closure is never scheduled: no test is started')
-    for c in s.sites:
+    # a plain nested function that schedules its own parameter ("starter") is followed: its calls are the scheduling sites
+    starters: T.Dict[str, T.Any] = {}
+    for name, nfn in s.nested.items():
+        if isinstance(nfn, ast.FunctionDef) and name not in s.closures and len(nfn.args.args) == 1:
+            inner = [c for c in walk_no_nested(nfn) if any(c is x for x in s.sites)]
+            if inner and all(len(c.args) == 1 and isinstance(c.args[0], ast.Name) and c.args[0].id == nfn.args.args[0].arg for c in inner):
+                starters[name] = nfn
+    in_starter = {id(c) for nfn in starters.values() for c in walk_no_nested(nfn)}
+    sites = [c for c in s.sites if id(c) not in in_starter] + [c for c in ast.walk(s.fn) if isinstance(c, ast.Call) and isinstance(c.func, ast.Name) and c.func.id in starters]
+    for nm in starters:
+        ctx.note(f'scheduling goes through the nested function {nm}(): its body is inlined into the loop paths')
+    for c in sites:
         inside = id(c) in s.in_loop
         ctx.require(inside, f'scheduling call {short(c)} is inside the `for {s.var} in {s.runners}` loop', mod, fq, c,
                     f'{short(c)} schedules a test outside the per-runner loop (a test can be started twice / out of protocol)')
@@ -143,7 +154,9 @@ def r1(ctx: RuleCtx) -> None:
         raise Undecided(f'_run_tests: the futures collection {coll} is rebound')
 
     # (b) per-path protocol of one loop iteration
-    tab = tables.extract(s.fn, body=s.loop.body, handlers=True, name='_run_tests:loop')
+    body = _inline_starters(list(s.loop.body), starters)
+    s.awaited |= {id(a.value) for st in body for a in ast.walk(st) if isinstance(a, ast.Await)}
+    tab = tables.extract(s.fn, body=body, handlers=True, name='_run_tests:loop')
     par = Atom('truth', (f'{s.var}.is_parallel',))
     for a in tab.atoms():
         txt = repr(a)
@@ -168,6 +181,9 @@ def r1(ctx: RuleCtx) -> None:
             ctx.violation(mod, fq, cons, f'{what}: the runner is scheduled {len(sched_idx)} times in one iteration', node)
             continue
         if not sched_idx:
+            via = [c for c in calls if isinstance(c.func, ast.Name) and c.func.id in s.nested and any(isinstance(a, ast.Name) and a.id == s.var for a in c.args)]
+            if back and via:
+                raise Undecided(f'_run_tests: the runner is handed to {short(via[0])}, which this rule does not follow')
             if back:
                 ctx.violation(mod, fq, cons, f'{what}: the iteration ends without scheduling {s.var}: the test is never started', node)
             else:
@@ -227,6 +243,36 @@ def r1(ctx: RuleCtx) -> None:
     ctx.require(ok, f'every path from the end of the loop to the return passes `await complete_all({coll})`', mod, fq,
                 f'final await complete_all({coll})', f'_run_tests can return (and the totals be printed) while scheduled tests are still running: '
                 f'no `await complete_all({coll})` on some path after the loop', s.loop)
+
+
+def _inline_starters(stmts: T.List[ast.stmt], starters: T.Dict[str, T.Any]) -> T.List[ast.stmt]:
+    """Loop body with `x = starter(v)` / `starter(v)` replaced by the starter's statements (returns become `x = ...`)."""
+    if not starters:
+        return stmts
+    out: T.List[ast.stmt] = []
+    n = [0]
+    for st in stmts:
+        call = None
+        tgt: T.Optional[str] = None
+        if isinstance(st, ast.Assign) and len(st.targets) == 1 and isinstance(st.targets[0], ast.Name) and isinstance(st.value, ast.Call):
+            call, tgt = st.value, st.targets[0].id
+        elif isinstance(st, ast.Expr) and isinstance(st.value, ast.Call):
+            call = st.value
+        if call is not None and isinstance(call.func, ast.Name) and call.func.id in starters:
+            n[0] += 1
+            name = tgt or f'_discarded{n[0]}'
+            out.extend(_inline_call(starters[call.func.id], call, lambda: ast.Name(id=name, ctx=ast.Store()), '_run_tests', False))
+            continue
+        if any(isinstance(c, ast.Call) and isinstance(c.func, ast.Name) and c.func.id in starters for c in walk_no_nested(st)):
+            st = tables._copy(st)
+            for field in ('body', 'orelse', 'finalbody'):
+                sub = getattr(st, field, None)
+                if isinstance(sub, list) and sub and isinstance(sub[0], ast.stmt):
+                    setattr(st, field, _inline_starters(sub, starters))
+            if any(isinstance(c, ast.Call) and isinstance(c.func, ast.Name) and c.func.id in starters for c in walk_no_nested(st)):
+                raise Undecided(f'_run_tests: unknown use of the starter function: {short(st)}')
+        out.append(st)
+    return out
 
 
 def _event_roots(ev: T.Any) -> T.List[ast.AST]:
@@ -315,6 +361,50 @@ def _propagated(fn: T.Any, calls: T.Iterable[str] = ()) -> T.Any:
     f2.body = [sub.visit(st) for st in f2.body]
     ast.fix_missing_locations(f2)
     return f2
+
+
+def _ret2assign(stmts: T.List[ast.stmt], target: T.Callable[[], ast.expr], what: str) -> T.List[ast.stmt]:
+    """Body of an inlined callee with every `return E` turned into `<target> = E` (early returns become else-nesting)."""
+    if not stmts:
+        return [ast.Assign(targets=[target()], value=ast.Constant(value=None), lineno=0, col_offset=0)]
+    st, rest = stmts[0], list(stmts[1:])
+    if isinstance(st, ast.Return):
+        return [ast.Assign(targets=[target()], value=st.value if st.value is not None else ast.Constant(value=None), lineno=st.lineno, col_offset=0)]
+    if isinstance(st, ast.If):
+        return [ast.If(test=st.test, body=_ret2assign(list(st.body) + rest, target, what), orelse=_ret2assign(list(st.orelse) + rest, target, what))]
+    if (isinstance(st, ast.Expr) and isinstance(st.value, ast.Constant)) or isinstance(st, ast.Pass) or (isinstance(st, ast.AnnAssign) and st.value is None):
+        return _ret2assign(rest, target, what)
+    if any(isinstance(n, (ast.Return, ast.Yield, ast.YieldFrom)) for n in ast.walk(st)):
+        raise Undecided(f'{what}: a return inside `{short(st, 60)}` cannot be inlined')
+    return [st] + _ret2assign(rest, target, what)
+
+
+def _inline_call(callee: T.Any, call: ast.Call, target: T.Callable[[], ast.expr], what: str, skip_self: bool) -> T.List[ast.stmt]:
+    """Statements equivalent to `<target> = callee(args)` (positional arguments that are plain names / attribute chains only)."""
+    g = _propagated(callee)
+    params = [a.arg for a in g.args.args]
+    if skip_self and params and params[0] == 'self':
+        params = params[1:]
+    if call.keywords or len(call.args) != len(params) or any(attr_chain(a) is None for a in call.args) or g.args.vararg or g.args.kwarg or g.args.kwonlyargs:
+        raise Undecided(f'{what}: cannot bind the arguments of {short(call)}')
+    stored = {n.id for n in walk_no_nested(g) if isinstance(n, ast.Name) and isinstance(n.ctx, ast.Store)}
+    if stored & set(params):
+        raise Undecided(f'{what}: {callee.name} rebinds its parameter')
+    sub = tables._Subst({p: a for p, a in zip(params, call.args)})
+    body = [sub.visit(st) for st in g.body]
+    out = _ret2assign(body, target, what)
+    for st in out:
+        ast.fix_missing_locations(st)
+    return out
+
+
+def _self_method_call(ctx: RuleCtx, mod: Module, cls: str, e: ast.AST) -> T.Optional[T.Any]:
+    """`self.m()` (no arguments) with m a plain method found through the MRO of cls -> its definition."""
+    if isinstance(e, ast.Call) and not e.args and not e.keywords and isinstance(e.func, ast.Attribute) and isinstance(e.func.value, ast.Name) and e.func.value.id == 'self':
+        r = ctx.repo.find_method(mod, mod.cls(cls), e.func.attr)
+        if r is not None and not decorator_names(r[2]) and isinstance(r[2], ast.FunctionDef):
+            return r[2]
+    return None
 
 
 def _ways_true(expr: ast.AST) -> T.List[T.Dict[Atom, bool]]:
@@ -530,8 +620,26 @@ def r2(ctx: RuleCtx) -> None:
     # is_parallel of a runner implies test.is_parallel and num_processes > 1 (every way the expression is true contains both atoms)
     init, expr, cls = _testrun_arg(mod, 'is_parallel')
     roles = _init_roles(mod, 'SingleTestRunner')
-    e2 = _Roles(roles).visit(_inline_locals(init, expr))
-    ways = _ways_true(e2)
+    e1 = _inline_locals(init, expr, calls=set(mod.methods('SingleTestRunner')))
+    helper = _self_method_call(ctx, mod, 'SingleTestRunner', e1)
+    if helper is not None:
+        # the expression lives in a helper method: every returning path of it, with the ways its value can be true
+        ways = []
+        for pth in enumerate_paths(_propagated(helper).body):
+            if pth.outcome != 'return' or pth.value is None:
+                continue
+            base: T.Dict[Atom, bool] = {}
+            for ev in pth.events:
+                if ev.kind == 'cond':
+                    a_, v_ = tables.canon(_Roles(roles).visit(tables._copy(ev.node)), ev.val)
+                    base[a_] = v_
+            for w in _ways_true(_Roles(roles).visit(tables._copy(pth.value))):
+                if all(base.get(k, v) == v for k, v in w.items()):
+                    ways.append({**base, **w})
+        e2 = ast.parse(f'{helper.name}()', mode='eval').body
+    else:
+        e2 = _Roles(roles).visit(e1)
+        ways = _ways_true(e2)
     if not ways:
         raise Undecided(f'SingleTestRunner.__init__: `{short(expr)}` can never be true')
     worst = None
@@ -543,6 +651,9 @@ def r2(ctx: RuleCtx) -> None:
             if f in (('gt', 1), ('ge', 2)):
                 has_jobs = True
         if not (has_test and has_jobs):
+            opaque = [a for a in w if a.kind == 'truth' and (a.args[0].isidentifier() or '(' in a.args[0])]
+            if opaque:
+                raise Undecided(f'SingleTestRunner.__init__: is_parallel depends on {opaque[0]!r}, which this rule cannot see into')
             worst = ' & '.join(('' if v else 'not ') + repr(a) for a, v in w.items())
     ctx.require(worst is None, f'is_parallel => test.is_parallel and num_processes > 1 ({len(ways)} way(s) for `{short(e2, 90)}` to hold)', mod, 'SingleTestRunner.__init__',
                 'is_parallel argument of ' + cls, f'a runner is parallel when [{worst}] holds, which does not establish test.is_parallel and num_processes > 1: '
@@ -665,7 +776,26 @@ def _res_rows(ctx: RuleCtx, mod: Module, fn: T.Any, qn: str) -> T.List[ResRow]:
     """Decision table of a method over the typestate of `self.res`: along each enumerated path the last constant
     assigned to self.res is propagated into later tests of self.res (a test contradicted by it prunes the path);
     tests met before any assignment constrain the incoming member."""
-    body = [_SplitCondAssign().visit(st) for st in _propagated(fn).body]
+    cls = qn.split('.')[0]
+
+    def expand(stmts: T.List[ast.stmt]) -> T.List[ast.stmt]:
+        """`self.res = self.helper()` -> the helper's statements with `return E` as `self.res = E` (one level of call following)."""
+        out: T.List[ast.stmt] = []
+        for st in stmts:
+            if isinstance(st, ast.Assign) and len(st.targets) == 1 and attr_chain(st.targets[0]) == RES:
+                g = _self_method_call(ctx, mod, cls, st.value)
+                if g is not None:
+                    if any(isinstance(n, ast.Attribute) and isinstance(n.ctx, (ast.Store, ast.Del)) for n in ast.walk(g)):
+                        raise Undecided(f'{qn}: the helper {g.name} changes object state')
+                    out.extend(_inline_call(g, T.cast(ast.Call, st.value), lambda: ast.Attribute(value=ast.Name(id='self', ctx=ast.Load()), attr='res', ctx=ast.Store()), qn, True))
+                    continue
+            for field in ('body', 'orelse'):
+                sub = getattr(st, field, None)
+                if isinstance(st, ast.If) and isinstance(sub, list):
+                    setattr(st, field, expand(sub))
+            out.append(st)
+        return out
+    body = [_SplitCondAssign().visit(st) for st in expand(_propagated(fn).body)]
     for st in body:
         ast.fix_missing_locations(st)
     rows: T.List[ResRow] = []
@@ -903,20 +1033,42 @@ def r3b(ctx: RuleCtx) -> None:
     mod = ctx.repo.module(MTEST)
     init, expr, cls = _testrun_arg(mod, 'timeout')
     roles = _init_roles(mod, 'SingleTestRunner')
-    if not isinstance(expr, ast.Name):
-        raise Undecided(f'SingleTestRunner.__init__: the timeout argument is not a local variable: {short(expr)}')
-    var = expr.id
-    stmts = _slice_for(init, {var})
-    if not stmts:
-        raise Undecided(f'SingleTestRunner.__init__: {var} is never assigned')
+    e1 = _inline_locals(init, expr, calls=set(mod.methods('SingleTestRunner')))
+    helper = _self_method_call(ctx, mod, 'SingleTestRunner', e1)
+    rmap = lambda e: norm(_Roles(roles).visit(tables._copy(e)))   # noqa: E731
 
     def eff(st: ast.AST) -> T.Optional[str]:
-        if isinstance(st, ast.Assign) and len(st.targets) == 1 and isinstance(st.targets[0], ast.Name) and st.targets[0].id == var:
-            return norm(_Roles(roles).visit(tables._copy(st.value)))
-        if any(isinstance(n, ast.Name) and n.id == var and isinstance(n.ctx, ast.Store) for n in ast.walk(st)):
-            raise Undecided(f'SingleTestRunner.__init__: unknown definition of {var}: {short(st)}')
+        if isinstance(st, (ast.Assign, ast.AnnAssign)) and st.value is not None:
+            tg = st.targets[0] if isinstance(st, ast.Assign) and len(st.targets) == 1 else st.target if isinstance(st, ast.AnnAssign) else None
+            if isinstance(tg, ast.Name):
+                return f'{tg.id} := {rmap(st.value)}'
         return None
-    tab = tables.extract(init, body=stmts, effects=eff, name='SingleTestRunner.__init__:timeout')
+    if helper is not None:
+        # the table lives in a helper method: its rows end in `return <local>` or `return <expression>`
+        where = f'SingleTestRunner.{helper.name}'
+        tab = tables.extract(_propagated(helper), effects=eff, name=where)
+        var = None
+    else:
+        if not isinstance(expr, ast.Name):
+            raise Undecided(f'SingleTestRunner.__init__: the timeout argument is not a local variable: {short(expr)}')
+        where = 'SingleTestRunner.__init__'
+        var = expr.id
+        stmts = _slice_for(init, {var})
+        if not stmts:
+            raise Undecided(f'SingleTestRunner.__init__: {var} is never assigned')
+        tab = tables.extract(init, body=stmts, effects=eff, name='SingleTestRunner.__init__:timeout')
+
+    def got_of(r: tables.Row) -> str:
+        name = var
+        if var is None:
+            if r.outcome[0] != 'return':
+                raise Undecided(f'{where}: a path does not return')
+            txt = r.outcome[1]
+            if not txt.isidentifier() or txt in ('None', 'True', 'False'):
+                return rmap(ast.parse(txt, mode='eval').body)
+            name = txt
+        vals = [e.split(' := ', 1)[1] for e in r.effects if e.startswith(f'{name} := ')]
+        return vals[-1] if vals else '<unset>'
     TO, MU = 'test.timeout', 'options.timeout_multiplier'
     n = 0
     mism: T.Dict[str, str] = {}
@@ -951,7 +1103,9 @@ def r3b(ctx: RuleCtx) -> None:
         world = f'interactive={inter}, declared timeout {to_s}, multiplier {mu_s} (sign class relative to 0)'
         outs = set()
         for r in fired:
-            g = r.effects[-1] if r.effects else '<unset>'
+            g = got_of(r)
+            if g != '<unset>' and any(isinstance(n, ast.Call) for n in ast.walk(ast.parse(g, mode='eval'))):
+                raise Undecided(f'{where}: the timeout is computed by {g}, which this rule cannot see into')
             if g in (f'{TO} * {MU}', f'{MU} * {TO}'):
                 g = 'product'
             outs.add(g)
@@ -966,7 +1120,7 @@ def r3b(ctx: RuleCtx) -> None:
         ctx.violation(mod, 'SingleTestRunner.__init__', f'timeout table: {k}', f'effective timeout for {wit} is {k} (documented: no timeout when interactive, undeclared, '
                       f'<= 0 or multiplier <= 0; declared value without multiplier; product otherwise)', expr)
     if not mism:
-        ctx.ok(f'timeout table of SingleTestRunner.__init__ ({len(tab.rows)} rows for `{var}`, passed to {cls}) equals the reference in {n} worlds of its atoms')
+        ctx.ok(f'timeout table of {where} ({len(tab.rows)} rows, value passed to {cls}) equals the reference in {n} worlds of its atoms')
 
 
 # ---------------------------------------------------------------------------
@@ -1019,6 +1173,12 @@ def r3c(ctx: RuleCtx) -> None:
     loop = loops[0]
     tv = loop.target.id
     it_ = loop.iter
+    if isinstance(it_, ast.Name) and it_.id != p0:
+        defs = [st for st in walk_no_nested(fn) if isinstance(st, (ast.Assign, ast.AnnAssign)) and any(isinstance(n, ast.Name) and n.id == it_.id and isinstance(n.ctx, ast.Store) for n in ast.walk(st))]
+        nst = sum(1 for n in walk_no_nested(fn) if isinstance(n, ast.Name) and n.id == it_.id and isinstance(n.ctx, (ast.Store, ast.Del)))
+        muts = [c for c in walk_no_nested(fn) if isinstance(c, ast.Call) and isinstance(c.func, ast.Attribute) and isinstance(c.func.value, ast.Name) and c.func.value.id == it_.id]
+        if len(defs) == 1 and nst == 1 and not muts and defs[0] in fn.body and defs[0].value is not None:
+            it_ = defs[0].value   # the list iterated was bound to a local first
     order: T.Optional[str] = None
     if isinstance(it_, ast.Call) and call_name(it_) == 'sorted' and len(it_.args) == 1 and isinstance(it_.args[0], ast.Name) and it_.args[0].id == p0:
         key = next((k.value for k in it_.keywords if k.arg == 'key'), None)
@@ -1349,11 +1509,18 @@ def r5(ctx: RuleCtx) -> None:
     iv, nv = [e.id for e in unp[0].targets[0].elts]   # type: ignore[union-attr]
 
     def eff(st: ast.AST) -> T.Optional[str]:
-        if isinstance(st, ast.Assign) and len(st.targets) == 1 and isinstance(st.targets[0], ast.Name) and st.targets[0].id == var:
+        if isinstance(st, ast.Assign) and len(st.targets) == 1 and isinstance(st.targets[0], ast.Name) and st.targets[0].id in (var, var + '__selected'):
             return norm(st.value)
         return None
     shell = tables._copy(fn)
     shell.body = [tables._copy(st) for st in st_if.body if st is not unp[0]]
+    out_stores = [n for st in shell.body for n in ast.walk(st) if isinstance(n, ast.Name) and n.id == var and isinstance(n.ctx, ast.Store)]
+    if len(out_stores) == 1:
+        owner = [st for st in shell.body if any(n is out_stores[0] for n in ast.walk(st))]
+        later = [n for st in shell.body[shell.body.index(owner[0]) + 1:] for n in ast.walk(st) if isinstance(n, ast.Name) and n.id == var] if owner else [None]
+        if owner and not later:
+            # reads of the incoming list (`n = len(tests)` hoisted before the guard) all precede the one re-binding: SSA-rename the result
+            out_stores[0].id = var + '__selected'
     shell = _propagated(shell)
     stab = tables.extract(shell, body=shell.body, effects=eff, inline=False, name=gq + ':slice')
     want_slice = f'{var}[{iv} - 1::{nv}]'
